@@ -1,11 +1,54 @@
-//! C03: not built yet
+//! C03: no client behaviour can crash or halt the routing core (S4)
+use super::s4common::{self, Plan};
 use super::{Meta, Prop};
 use crate::common::{Ctx, Stats};
+#[allow(unused_imports)]
+use crate::sub::s4drive::{base_profile, Stepping, Weights};
+#[allow(unused_imports)]
+use rumqttd::Strategy;
 
-fn run(_ctx: &Ctx) -> Stats {
-    let mut s = Stats::default();
-    s.inconclusive.push("check not built yet".into());
-    s
+pub fn plan() -> Plan {
+    let mut hostile = base_profile("c03-hostile");
+    hostile.hostile = true;
+    hostile.raw_events = true;
+    hostile.stale_events = true;
+    hostile.shared_pm = 150;
+    hostile.will_pm = 300;
+    hostile.alias_pm = 200;
+    hostile.persistent_pm = 400;
+    hostile.w.bad = 10;
+    hostile.w.raw = 8;
+    hostile.w.stale = 8;
+    hostile.w.will_ev = 3;
+    hostile.w.takeover = 4;
+    hostile.w.link_drop = 5;
+    hostile.w.disconnect_pkt = 4;
+    hostile.w.connect = 10;
+    hostile.ops = (20, 120);
+    hostile.burst_pm = 40;
+    hostile.trigger_pm = 200;
+    let mut single = hostile.clone();
+    single.name = "c03-hostile-single";
+    single.stepping = Stepping::Single;
+    let mut tiny = hostile.clone();
+    tiny.name = "c03-small-limits";
+    tiny.max_connections = 3;
+    tiny.clients = (3, 5);
+    let profiles = vec![hostile, single, tiny];
+    Plan {
+        profiles,
+        directed: vec![],
+        quick_histories: 1500,
+        thorough_histories: 400000,
+    }
+}
+
+fn run(ctx: &Ctx) -> Stats {
+    s4common::run(ctx, &plan())
+}
+
+fn replay(ctx: &Ctx, doc: &serde_json::Value) -> Stats {
+    s4common::replay(ctx, &plan(), doc)
 }
 
 pub fn prop() -> Prop {
@@ -13,11 +56,11 @@ pub fn prop() -> Prop {
         id: "C03",
         meta: Meta {
             level: "exploration",
-            rule: "not built",
-            assumptions: &[],
-            floors: &[],
+            rule: "seeded hostile histories (protocol violations, bad acks, server-to-client packets from clients, raw events for unknown/removed ids, stale events of ended links, takeovers, persistent sessions, shared groups, wills) against the real router; every router step runs under catch_unwind with overflow checks on; structural invariants of the router snapshot after every step; a probe (fresh quiescence with all oracles) ends every history. A case counts as distinct and non-trivial when its sequence of operation kinds is new and it reached at least one named corner state.",
+            assumptions: &["router stepped on one thread through verif hooks; link actors use the real LinkTx/LinkRx", "default segment sizes: backlog stays within retention"],
+            floors: &[("quiescent-point", 50), ("stale-event-delivered", 5)],
         },
         run,
-        replay: None,
+        replay: Some(replay),
     }
 }
